@@ -40,8 +40,26 @@ func vC07LabLocal(l *vC07Lab, r *rand.Rand, cnt int, scratch string, emit func(m
 		return
 	}
 	localCoq := vC07CoqIPList(hostAll)
+	// what an address lookup for an NS host of the delegated zone returns in the current scenario
+	var nsMu sync.Mutex
+	nsAnswers := map[string][]dns.RR{}
+	nsAnswer := func(q dns.Question) *dns.Msg {
+		nsMu.Lock()
+		rrs, ok := nsAnswers[strings.ToLower(q.Name)]
+		nsMu.Unlock()
+		if !ok || q.Qtype != dns.TypeA {
+			return nil
+		}
+		m := &dns.Msg{}
+		m.Authoritative = true
+		m.Answer = rrs
+		return m
+	}
 	answer := func(q dns.Question) *dns.Msg {
 		name := strings.ToLower(q.Name)
+		if m := nsAnswer(q); m != nil {
+			return m
+		}
 		if strings.HasPrefix(name, "ns") || q.Qtype != dns.TypeA {
 			return vC07SoftNeg("sub.evil.l1.", false)
 		}
@@ -79,7 +97,9 @@ func vC07LabLocal(l *vC07Lab, r *rand.Rand, cnt int, scratch string, emit func(m
 			attack.extra = append(attack.extra, vC07RRSpec{owner: vC07N(h), rrtype: dns.TypeA, class: dns.ClassINET, ttl: 300, ip: ip})
 		}
 		subIP := []byte(net.ParseIP(vC07AddrSub).To4())
-		switch c % 5 {
+		lookupIP := []byte{192, 0, 2, 97} // a usable address an NS-host lookup returns next to the own one
+		var lookups []vC07RRSpec      // the records the address lookup for hostsAvail[0] returns
+		switch c % 7 {
 		case 0: // the machine's own address is all the referral offers
 			nsrr(hostsAvail[0])
 			glue(hostsAvail[0], mine)
@@ -107,6 +127,17 @@ func vC07LabLocal(l *vC07Lab, r *rand.Rand, cnt int, scratch string, emit func(m
 			glue(hostsAvail[2], []byte{127, 0, 0, 1})
 			glue(hostsAvail[2], subIP)
 			tags = []string{"own-16-octets+loopback"}
+		case 5: // no glue for the first host: its address LOOKUP returns the own address next to a usable one
+			nsrr(hostsAvail[0])
+			nsrr(hostsAvail[1])
+			glue(hostsAvail[1], subIP)
+			lookups = []vC07RRSpec{{owner: vC07N(hostsAvail[0]), rrtype: dns.TypeA, class: dns.ClassINET, ttl: 300, ip: mine},
+				{owner: vC07N(hostsAvail[0]), rrtype: dns.TypeA, class: dns.ClassINET, ttl: 300, ip: lookupIP}}
+			tags = []string{"lookup-own+usable"}
+		case 6: // the only host has no glue and its address lookup returns nothing but the own address
+			nsrr(hostsAvail[0])
+			lookups = []vC07RRSpec{{owner: vC07N(hostsAvail[0]), rrtype: dns.TypeA, class: dns.ClassINET, ttl: 300, ip: mine}}
+			tags = []string{"lookup-own-only"}
 		default: // random mix
 			k := 1 + r.Intn(3)
 			for i := 0; i < k; i++ {
@@ -128,9 +159,18 @@ func vC07LabLocal(l *vC07Lab, r *rand.Rand, cnt int, scratch string, emit func(m
 		}
 		amsg := attack.msg()
 		amsg.Authoritative = false
+		nsMu.Lock()
+		nsAnswers = map[string][]dns.RR{}
+		if len(lookups) > 0 {
+			nsAnswers[hostsAvail[0]] = vC07RRs(lookups)
+		}
+		nsMu.Unlock()
 		l.evil.setHandle(func(q dns.Question) *dns.Msg {
 			if strings.EqualFold(q.Name, qs) {
 				return amsg
+			}
+			if m := nsAnswer(q); m != nil {
+				return m
 			}
 			return l.honestEvil(q)
 		})
@@ -143,6 +183,7 @@ func vC07LabLocal(l *vC07Lab, r *rand.Rand, cnt int, scratch string, emit func(m
 			remap[k] = v
 		}
 		remap[vC07AddrSub+":53"] = sub.addr
+		remap[net.IP(lookupIP).String()+":53"] = sub.addr
 		ownSet := map[string]bool{}
 		for _, ip := range own4 {
 			remap[net.IP(ip).String()+":53"] = own.addr
@@ -169,13 +210,16 @@ func vC07LabLocal(l *vC07Lab, r *rand.Rand, cnt int, scratch string, emit func(m
 		sub.takeAsked()
 
 		// NS-address cache for the referral's hosts
-		var filedCoq, filedDesc []string
+		var filedCoq, filedDesc, probeCoq []string
 		var allAddrs []netip.Addr
 		for _, h := range hostsAvail {
 			if addrs, ok := p.h.resolver.getIPv4Cache(h); ok {
+				probeCoq = append(probeCoq, fmt.Sprintf("(%s, Some %s)", vC07N(h).coq(), vC07CoqAddrs(addrs)))
 				filedCoq = append(filedCoq, fmt.Sprintf("(%s, %s)", vC07N(h).coq(), vC07CoqAddrs(addrs)))
 				filedDesc = append(filedDesc, fmt.Sprintf("%s=%v", h, addrs))
 				allAddrs = append(allAddrs, addrs...)
+			} else {
+				probeCoq = append(probeCoq, fmt.Sprintf("(%s, None)", vC07N(h).coq()))
 			}
 		}
 		// delegation cache: the server list on file for sub.evil.l1.
@@ -195,7 +239,7 @@ func vC07LabLocal(l *vC07Lab, r *rand.Rand, cnt int, scratch string, emit func(m
 		}
 		// advertised glue addresses of this referral that were dialled
 		glueSet := map[string]bool{}
-		for _, s := range attack.extra {
+		for _, s := range append(append([]vC07RRSpec{}, attack.extra...), lookups...) {
 			if a, ok := netip.AddrFromSlice(s.ip); ok {
 				glueSet[a.Unmap().String()] = true
 			}
@@ -233,13 +277,24 @@ func vC07LabLocal(l *vC07Lab, r *rand.Rand, cnt int, scratch string, emit func(m
 			crc = rep.Rcode
 			repAns = vC07RRStrings(rep.Answer)
 		}
+		coq := fmt.Sprintf("CaseLabLocal %s 2 %s (mk_q %s 1 1) %s [%s] %s %s %v", localCoq, vC07N(vC07Evil).coq(), qn.coq(), attack.coq(),
+			strings.Join(filedCoq, ";"), vC07CoqAddrs(srv), vC07CoqAddrs(dl), len(ownAsked) > 0)
+		if len(lookups) > 0 {
+			// the lookup route is part of the NS-address-cache history model: one referral event whose glue-less host is
+			// resolved by an address lookup returning [lookups]
+			var hostNames []vC07Name
+			for _, s := range attack.ns {
+				hostNames = append(hostNames, s.target)
+			}
+			coq = fmt.Sprintf("CaseGlueHist %s [GlueReferral 2 %s %s %s [(%s, %s)]] [%s]", localCoq, qn.coq(), vC07CoqNames(hostNames), vC07CoqRRs(attack.extra),
+				vC07N(hostsAvail[0]).coq(), vC07CoqRRs(lookups), strings.Join(probeCoq, ";"))
+		}
 		emit(map[string]any{
 			"k": "lablocal-" + tags[0],
-			"coq": fmt.Sprintf("CaseLabLocal %s 2 %s (mk_q %s 1 1) %s [%s] %s %s %v", localCoq, vC07N(vC07Evil).coq(), qn.coq(), attack.coq(),
-				strings.Join(filedCoq, ";"), vC07CoqAddrs(srv), vC07CoqAddrs(dl), len(ownAsked) > 0),
+			"coq": coq,
 			"nontrivial": true, "go_fail": goFail,
 			"desc": map[string]any{"zone": vC07Evil, "question": qs, "attack": tags, "local_interface_addrs": fmt.Sprint(hostAll),
-				"sent_authority": vC07DescRRs(attack.ns), "sent_additional": vC07DescRRs(attack.extra),
+				"sent_authority": vC07DescRRs(attack.ns), "sent_additional": vC07DescRRs(attack.extra), "ns_host_address_lookup_returns": vC07DescRRs(lookups),
 				"ns_address_cache": filedDesc, "delegation_servers": fmt.Sprint(srv), "glue_addresses_dialled": fmt.Sprint(dl),
 				"queries_at_own_address": ownAsked, "client_rcode": crc, "client_reply_answer": repAns, "servers_asked": vC07Sorted(asked)},
 		})
